@@ -165,6 +165,8 @@ from . import helpers
 
 from . import initial
 
+from . import mustcall
+
 OBLIGATIONS = [
     ('C10.O1', 'gossip out', 'every Input packet carries the connect_status it was given; the session passes local_connect_status at every '
      'send_input/poll call.', o1),
@@ -177,4 +179,5 @@ OBLIGATIONS = [
     ('C10.O6', 'same cut-off predicate everywhere (= C03.O2)', 'see C03.O2', c03.o2),
     ('C10.H', 'helpers the rules above rely on', 'the bodies of the helpers named by this property\'s rules compute what the rules assume (endpoint_getters); see rules/helpers.py', helpers.bundle('endpoint_getters')),
     ('C10.I', 'initial state', 'every constructor gives the fields this property\'s rules interpret (NULL_FRAME = none / nothing yet, 0 = first frame, latches open, typestate start) the value listed in tables/initial_state.json; every field compared with NULL_FRAME anywhere is listed; see rules/initial.py', initial.rule_for('C10')),
+    ('C10.M', 'must-call floor', 'the calls listed for this property in tables/must_call.json are made on every path from the entry of their function to a normal return (interprocedural must-call): a new early return, fast path or extra condition in front of one of them is reported; see rules/mustcall.py', mustcall.rule_for('C10')),
 ]
